@@ -510,7 +510,7 @@ pub(crate) mod verif_sem {
             }
 
             // C01 / S1, S2 (+ fair: queue order = arrival order, owned by C07)
-            if (p & (P01 | P07)) != 0 {
+            if (p & (P01 | P07 | P06)) != 0 {
                 let g = sem.state.lock();
                 let nodes: [*const Node; 3] = [&f0.wait_node, &f1.wait_node, &f2.wait_node];
                 let len = g.waiters.verif_len_checked(3);
@@ -533,6 +533,8 @@ pub(crate) mod verif_sem {
                 }
                 if (p & P01) != 0 {
                     assert!(len == Some(cnt), "C01 semaphore step: wait queue holds a node that is not a live waiting future");
+                }
+                if (p & (P01 | P06)) != 0 {
                     i = 0;
                     while i < 3 {
                         if alive[i] && t2[i] == 1 {
@@ -540,7 +542,8 @@ pub(crate) mod verif_sem {
                             let lwc: &WakeCell = if i == polled { if polled_w { cells_a[i] } else { cells_b[i] } }
                                                  else if lw[i] { cells_a[i] } else { cells_b[i] };
                             let ok = match &nd.task { Some(w) => w.will_wake(&ManuallyDrop::new(mk_waker(lwc))), None => false };
-                            assert!(ok, "C01 semaphore step: waiting future does not store the waker of its latest poll");
+                            if (p & P01) != 0 { assert!(ok, "C01 semaphore step: waiting future does not store the waker of its latest poll"); }
+                            if (p & P06) != 0 { assert!(ok, "C06 semaphore step: waiting future does not store the waker of its latest poll (it would be woken through a stale waker)"); }
                         }
                         i += 1;
                     }
@@ -665,6 +668,10 @@ pub(crate) mod verif_sem {
         hist_proof!(hist_c01_x_p3_n7, NoopLock, 7, P01, 2 | (3 << 2), 8);
         hist_proof!(hist_c01_x_p2_n5_check, CheckLock, 5, P01, 2 | (2 << 2), 6);
 
+        hist_proof!(hist_c05_x_p1_n5, NoopLock, 5, P05, 2 | (1 << 2), 6);
+        hist_proof!(hist_c06_u_p1_n5, NoopLock, 5, P06, 0 | (1 << 2), 6);
+        hist_proof!(hist_c06_f_p1_n5, NoopLock, 5, P06, 1 | (1 << 2), 6);
+        hist_proof!(hist_c07_f_p1_n5, NoopLock, 5, P07, 1 | (1 << 2), 6);
         macro_rules! step_proof {
             ($name:ident, $lock:ty, $fair:expr, $class:expr, $amax:expr, $p:expr) => {
                 #[kani::proof]
